@@ -5,11 +5,9 @@ import (
 	"sync"
 )
 
-func verif_go(name string, f func())                                               { panic("intrinsic") }
 func verif_quiesce()                                                               { panic("intrinsic") }
 func verif_cancelCtx(parent context.Context) (context.Context, context.CancelFunc) { panic("intrinsic") }
 func verif_parkedCount() int                                                       { panic("intrinsic") }
-func verif_ctx(cancelled bool) context.Context                                     { panic("intrinsic") }
 
 // VerifC16NotifyCoop: the contract of VerifC16Notify under the symbolic scheduler inside the interpreter (DESIGN 4b).
 // mode 0: the broadcaster sets the state and broadcasts while holding the locker; mode 1: it broadcasts after releasing
